@@ -30,7 +30,8 @@ CmpClass(x, r) ==
                  /\ a.present = b.present
                  /\ a.present => /\ a.ver = b.ver /\ a.origin = b.origin
                                  /\ a.prop = b.prop /\ a.quals = b.quals
-                                 /\ a.hasx = b.hasx /\ a.xquals = b.xquals)
+                                 /\ a.hasx = b.hasx /\ a.xquals = b.xquals
+                                 /\ a.pars = b.pars)
               : e \in Elems}
 
 Busy(i, c) == IF ImplChildren(i.store, c) # {} THEN E_CLASS_HAS_CHILDREN
